@@ -1,6 +1,7 @@
 (* P_Instruments.v — proofs about the instrument templates of model/M_Instruments.v (property C19). *)
 From Coq Require Import List ZArith QArith Qround Qabs Bool Lia Lqa.
 From PyOrb.model Require Import M_Instruments.
+From PyOrb.proofs Require Import P_InstrumentsSweep.
 Import ListNotations.
 Open Scope Q_scope.
 
@@ -651,15 +652,6 @@ Proof.
     replace (m + (npos t - 1 - m))%Z with (npos t - 1)%Z in Mono by lia. lia.
 Qed.
 
-Lemma sweep_avhrr : sweep avhrr [2047%Z] 50 = true. Proof. vm_cast_no_check (eq_refl true). Qed.
-Lemma sweep_avhrr_gac : sweep avhrr_gac [2047%Z] 50 = true. Proof. vm_cast_no_check (eq_refl true). Qed.
-Lemma sweep_amsua : sweep amsua [29%Z] 50 = true. Proof. vm_cast_no_check (eq_refl true). Qed.
-Lemma sweep_mhs : sweep mhs [89%Z] 50 = true. Proof. vm_cast_no_check (eq_refl true). Qed.
-Lemma sweep_hirs4 : sweep hirs4 [55%Z] 50 = true. Proof. vm_cast_no_check (eq_refl true). Qed.
-Lemma sweep_atms : sweep atms [95%Z] 50 = true. Proof. vm_cast_no_check (eq_refl true). Qed.
-Lemma sweep_mwhs2 : sweep mwhs2 [97%Z] 50 = true. Proof. vm_cast_no_check (eq_refl true). Qed.
-Lemma sweep_ascat : sweep ascat (zrange 42) 50 = true. Proof. vm_cast_no_check (eq_refl true). Qed.
-Lemma sweep_viirs : sweep viirs [6399%Z] 50 = true. Proof. vm_cast_no_check (eq_refl true). Qed.
 
 Lemma sweep_ok_scanners t : In t scanners -> sweep_ok t.
 Proof.
@@ -682,7 +674,7 @@ Proof.
   intros K Hm Hs Hpq Hq.
   replace q with (p + (q - p))%Z by lia.
   assert (Hk : (0 <= q - p)%Z) by lia. assert (Hb : (p + (q - p) <= m)%Z) by lia.
-  revert Hb. generalize dependent (q - p)%Z. intros k _ Hk. pattern k. apply natlike_ind; [| |exact Hk].
+  revert Hk Hb. generalize (q - p)%Z. intros k Hk. pattern k. apply natlike_ind; [| |exact Hk].
   - intros _. rewrite Z.add_0_r. lia.
   - intros x Hx IH Hb. specialize (IH ltac:(lia)).
     replace (p + Z.succ x)%Z with ((p + x) + 1)%Z by lia.
@@ -705,4 +697,80 @@ Proof.
   pose proof (b64_mono t m s p m K Hm ltac:(lia) ltac:(lia) ltac:(lia)) as A.
   pose proof (b64_mono t m (S s) 0 q K Hm Hs ltac:(lia) ltac:(lia)) as B.
   destruct (K m s p Hm ltac:(lia) Hp) as (_ & _ & C3 & _). lia.
+Qed.
+
+(* ------------------------------------------------------------------ *)
+(* the statements of C19, over the list of modelled instruments        *)
+(* ------------------------------------------------------------------ *)
+Lemma scanners_ndet t : In t scanners -> (0 < ndet t)%nat.
+Proof. intros H. apply (wf_ndet t (wf_scanners t H)). Qed.
+
+Lemma c19_shape A t n ps :
+  (length (angles t n ps) = 2%nat /\
+   forall plane, In plane (angles t n ps) ->
+     length plane = (n * ndet t)%nat /\ forall row, In row plane -> length row = length ps) /\
+  (length (times A t n ps) = (n * ndet t)%nat /\
+   forall row, In row (times A t n ps) -> length row = length ps).
+Proof. split; [apply shape_angles|apply shape_times]. Qed.
+
+Lemma c19_same_angles t n ps c L : In t scanners -> (L < n * ndet t)%nat ->
+  nth L (nth c (angles t n ps) []) [] = nth (L mod ndet t) (nth c (angles t n ps) []) [].
+Proof. intros H. apply same_angles_per_scan, scanners_ndet, H. Qed.
+
+Lemma c19_bounds t n ps : In t scanners -> in_range t ps ->
+  (forall row, In row (nth 0 (angles t n ps) []) -> forall a, In a row -> Qabs a <= swath t) /\
+  (forall row, In row (nth 1 (angles t n ps) []) -> forall a, In a row -> Qabs a <= 1).
+Proof.
+  intros H R. split; [apply across_bounds; [apply wf_scanners, H|exact R]|apply along_bounds, wf_scanners, H].
+Qed.
+
+Lemma c19_antisym t n L p : In t scanners -> (L < n * ndet t)%nat -> (0 <= p < npos t)%Z ->
+  let row := nth L (nth 0 (angles t n (full t)) []) [] in
+  nth (Z.to_nat (npos t - 1 - p)) row 0 == - nth (Z.to_nat p) row 0.
+Proof. intros H. apply antisymmetric_full, wf_scanners, H. Qed.
+
+Lemma c19_antisym_along t d : In t scanners -> (d < ndet t)%nat -> along t (ndet t - 1 - d) == - along t d.
+Proof. intros H. apply (wf_along_antisym t (wf_scanners t H)). Qed.
+
+Lemma c19_time_increasing t m s p q : In t scanners -> (0 <= m < npos t)%Z -> (0 <= p < q)%Z ->
+  (time_ns Exact t m s p < time_ns Exact t m s q)%Z.
+Proof. intros H. apply time_increasing, wf_scanners, H. Qed.
+
+Lemma c19_line_before_next t m s p q : In t scanners -> (0 <= p <= m)%Z -> (m < npos t)%Z -> (0 <= q)%Z ->
+  (time_ns Exact t m s p < time_ns Exact t m (S s) q)%Z.
+Proof. intros H. apply line_before_next, wf_scanners, H. Qed.
+
+Lemma c19_scan_period t m s p : In t scanners -> (0 <= m < npos t)%Z -> (0 <= p)%Z ->
+  Qabs (inject_Z (time_ns Exact t m (S s) p - time_ns Exact t m s p) - period t * 1000000000) < 1.
+Proof. intros H. apply scan_period_ns, wf_scanners, H. Qed.
+
+Lemma c19_exec A t n ps : In t scanners ->
+  angles_exec t n ps = angles t n ps /\ times_exec A t n ps = times A t n ps.
+Proof. intros H. split; [apply angles_exec_eq|apply times_exec_eq]; apply scanners_ndet, H. Qed.
+
+Lemma c19_b64 t m s p : In t scanners -> (0 <= m < npos t)%Z -> (s < 50)%nat -> (0 <= p <= m)%Z ->
+  (Z.abs (time_ns B64 t m s p - time_ns Exact t m s p) <= 1)%Z /\
+  Qabs (inject_Z (time_ns B64 t m (S s) p - time_ns B64 t m s p) - period t * 1000000000) <= 2.
+Proof.
+  intros H Hm Hs Hp. destruct (sweep_ok_scanners t H m s p Hm Hs Hp) as (C1 & _ & _ & C4). split; assumption.
+Qed.
+
+Lemma c19_b64_increasing t m s p q : In t scanners -> (0 <= m < npos t)%Z -> (s < 50)%nat ->
+  (0 <= p < q)%Z -> (q <= m)%Z -> (time_ns B64 t m s p < time_ns B64 t m s q)%Z.
+Proof. intros H. apply b64_time_increasing, sweep_ok_scanners, H. Qed.
+
+Lemma c19_b64_line_before_next t m s p q : In t scanners -> (0 <= m < npos t)%Z -> (S s < 50)%nat ->
+  (0 <= p <= m)%Z -> (0 <= q <= m)%Z -> (time_ns B64 t m s p < time_ns B64 t m (S s) q)%Z.
+Proof. intros H. apply b64_line_before_next, sweep_ok_scanners, H. Qed.
+
+(* the selected maximum is one of the selected positions, hence in range *)
+Lemma pmax_range t ps : in_range t ps -> (0 < npos t)%Z -> (0 <= pmax ps < npos t)%Z.
+Proof.
+  intros R HN. unfold in_range in R. induction R as [|p ps Hp R IH]; cbn [pmax fold_right]; [lia|].
+  fold (pmax ps). lia.
+Qed.
+Lemma pmax_ge ps p : In p ps -> (p <= pmax ps)%Z.
+Proof.
+  induction ps as [|x ps IH]; [intros []|]. intros [->|H]; cbn [pmax fold_right]; fold (pmax ps); [lia|].
+  specialize (IH H). lia.
 Qed.
